@@ -1,6 +1,7 @@
 package server
 
 import (
+	"bytes"
 	"errors"
 	"fmt"
 	"io"
@@ -86,8 +87,24 @@ func (s *Server) loadAOF() (err error) {
 				data = data[1:]
 				continue
 			}
+			tail := data
 			complete, args, _, data, err = redcon.ReadNextCommand(data, args[:0])
 			if err != nil {
+				if s.aofTailIsTornAndPadded(tail) {
+					// An incomplete command followed by zeros (issue #230)
+					// instead of the end of the file: repair it like the
+					// incomplete command at the end of the file above.
+					log.Warnf("Truncating %d bytes due to an incomplete command\n",
+						len(tail))
+					s.aofsz -= len(tail)
+					if err := s.aof.Truncate(int64(s.aofsz)); err != nil {
+						return err
+					}
+					if _, err := s.aof.Seek(int64(s.aofsz), 0); err != nil {
+						return err
+					}
+					return nil
+				}
 				return err
 			}
 			if !complete {
@@ -143,6 +160,35 @@ func (s *Server) flushAOF(sync bool) {
 			s.aofbuf = s.aofbuf[:0]
 		}
 	}
+}
+
+// aofTailIsTornAndPadded tells whether tail - the rest of what has been read of
+// the log, starting at a command that does not parse - is an incomplete command
+// followed by nothing but zero bytes up to the end of the file. A crash in the
+// middle of an append can leave that: the command is torn and the rest of the
+// block it was written to reads as zeros.
+func (s *Server) aofTailIsTornAndPadded(tail []byte) bool {
+	var rest [4096]byte
+	for {
+		n, err := s.aof.Read(rest[:])
+		for _, b := range rest[:n] {
+			if b != 0 {
+				return false
+			}
+		}
+		if err != nil {
+			if err != io.EOF {
+				return false
+			}
+			break
+		}
+	}
+	torn := bytes.TrimRight(tail, "\x00")
+	if len(torn) == len(tail) || len(torn) == 0 {
+		return false
+	}
+	complete, _, _, _, err := redcon.ReadNextCommand(torn, nil)
+	return err == nil && !complete
 }
 
 func (s *Server) writeAOF(args []string, d *commandDetails) error {
